@@ -1,10 +1,11 @@
 CONSTANTS
-  Ttl = 4
+  Ttl = 8
   Gc = 4
   Dev = "engine"
   GenDepth = 30
   NTxn = 12
   GK = 3
+  GV = 2
 SPECIFICATION GSpec
 INVARIANT Emit
 CHECK_DEADLOCK FALSE
